@@ -119,7 +119,7 @@ Named == [k |-> "named", n |-> "N"]
 
 Ctxs == {"opt", "vec", "hset", "bset", "ref", "res1",
          "hmapv", "bmapv", "hmapk", "bmapk", "resok", "reserr",
-         "t2a", "t2b", "t3a", "t3b", "t3c", "t4a", "t4b", "t4c", "t4d"}
+         "t1", "t2a", "t2b", "t3a", "t3b", "t3c", "t4a", "t4b", "t4c", "t4d"}
 
 Apply(cx, t) ==
     CASE cx \in {"opt", "vec", "hset", "bset", "ref", "res1"} -> [k |-> cx, a |-> t]
@@ -129,6 +129,7 @@ Apply(cx, t) ==
       [] cx = "bmapk"  -> [k |-> "bmap", a |-> t, b |-> L("bool")]
       [] cx = "resok"  -> [k |-> "res", a |-> t, b |-> L("str")]
       [] cx = "reserr" -> [k |-> "res", a |-> L("num"), b |-> t]
+      [] cx = "t1"  -> [k |-> "tup", ts |-> <<t>>]            \* (T,) - serde: a one-element array
       [] cx = "t2a" -> [k |-> "tup", ts |-> <<t, L("num")>>]
       [] cx = "t2b" -> [k |-> "tup", ts |-> <<L("str"), t>>]
       [] cx = "t3a" -> [k |-> "tup", ts |-> <<t, L("num"), L("bool")>>]
